@@ -126,6 +126,7 @@ def step (s0 : MState) (j : Json) : MState × Json :=
          let (sched, verdict) := mkSched (orderOf j) s.idx startDeps
          let (s1, x) := execGen sched s args
          (s1, obs s1 x [("sched", .str verdict),
+                        ("scope", .bool (genScopeB s args && validSchedule s.idx startDeps (sched (findTaskids s.idx startDeps)))),
                         ("order", .arr ((findTaskids s.idx startDeps).map pathToJson).toArray)])
        | none => bad s "genfun args")
     | none => bad s "genfun"
